@@ -634,6 +634,14 @@ func c12Rebound(c *Ctx) {
 				in = &characteristic.Int{Characteristic: characteristic.NewProgrammableSwitchEvent().Characteristic}
 				steps = append(steps, "NewProgrammableSwitchEvent")
 			}
+			if i%3 == 2 {
+				// a characteristic whose value the application supplies on demand (a sensor that is read when asked): what
+				// is stored — and served by /accessories and in events — still has to follow a changed range
+				last := pick()
+				fl.OnValueGet(func() interface{} { return last })
+				in.OnValueGet(func() interface{} { return int(last) })
+				steps = append(steps, "OnValueGet registered")
+			}
 			for k := 0; k < 2+r.Intn(8); k++ {
 				v := pick()
 				op := []string{"SetValue", "SetMinValue", "SetMaxValue"}[r.Intn(3)]
